@@ -32,13 +32,15 @@ def exec_wsr(m, n, s, target, mode):
     return r.fields[0], r.fields[1]
 
 
-def run_wsr(D, k, mode, fn='with_scale_round'):
+def run_wsr(D, k, mode, fn='with_scale_round', Lmin=1):
     n, s0 = z3.Ints('n s0')
 
     def run(m):
         m.witness = {'n': n, 's0': s0}
         S.DIGIT_BOUND[0] = D
         m.assume(z3.And(s0 >= -C.SCALE_BOUND, s0 <= C.SCALE_BOUND, n > -10 ** D, n < 10 ** D))
+        if Lmin > 1:
+            m.assume(z3.Or(n >= 10 ** (Lmin - 1), n <= -10 ** (Lmin - 1)))      # only the long inputs of this task
         if fn == 'with_scale_round':
             ri, rs = exec_wsr(m, n, s0, s0 - k, mode)
         elif fn == 'round':
@@ -106,7 +108,7 @@ def worker(p):
     S.BITS_MODE[:] = ['uf', 128]
     k = p['kind']
     if k in ('wsr', 'round'):
-        run = run_wsr(p['D'], p['k'], p['mode'], 'with_scale_round' if k == 'wsr' else 'round')
+        run = run_wsr(p['D'], p['k'], p['mode'], 'with_scale_round' if k == 'wsr' else 'round', p.get('Lmin', 1))
     elif k == 'with_scale':
         run = run_with_scale(p['k'])
     elif k == 'pair':
@@ -228,13 +230,22 @@ def main(tier):
         tasks.append({'kind': 'with_scale', 'k': k})
     # rounding re-scaling far to the left of a short number (everything is rounded away: result 0 or one unit), same boundaries
     for mode in MODES:
-        for k in [255, 256, 257, 270, 275, 276, 511, 512, 513, 531, 1000, 65535, 65536, 65537]:
+        for k in list(range(4, 46)) + [255, 256, 257, 270, 275, 276, 511, 512, 513, 531, 1000, 65535, 65536, 65537]:
             tasks.append({'kind': 'wsr', 'D': 3, 'k': k, 'mode': mode})
     for mode in MODES:
         for sign in ('Minus', 'NoSign', 'Plus'):
             tasks.append({'kind': 'pair', 'mode': mode, 'sign': sign})
             for at in range(1, 10):
                 tasks.append({'kind': 'u32', 'mode': mode, 'sign': sign, 'at': at})
+    # D-digit inputs with the number of discarded digits at the 10^18 / 10^19 / 10^20 boundaries of i64 / u64 powers of ten
+    for mode in MODES:
+        for k in (D + 4, D + 5, 17, 18, 19, 20, 21, 22, 38, 39, 40):
+            if k > D + 3:
+                tasks.append({'kind': 'wsr', 'D': D, 'k': k, 'mode': mode})
+    # 19/20-digit inputs (around i64::MAX / u64::MAX) losing 17..21 digits: where a native-integer fast path would sit
+    for mode in MODES:
+        for k in (18, 19, 20) if tier == 'quick' else (17, 18, 19, 20, 21):
+            tasks.append({'kind': 'wsr', 'D': 20, 'k': k, 'mode': mode, 'Lmin': 18})
     tasks.sort(key=lambda t: -(t.get('k', 0) if t['kind'] in ('wsr', 'round') else -100))
     rep.required_labels = {'extension', 'target left of the leading digit'}
     rep.bounds = {'digits_D': D, 'k (digits discarded)': '-3..D+3', 'modes': MODES, 'default_mode_in_dump': dmode,
